@@ -243,7 +243,16 @@ func cmdCheck(args []string) int {
 	violations := 0
 	var lines []string
 	os.MkdirAll(filepath.Join(verifDir(), "replays", id), 0o755)
+	unreliable := map[string]bool{}
+	for _, r := range results {
+		if len(r.Errors) > 0 || len(r.Drift) > 0 {
+			unreliable[r.Name] = true
+		}
+	}
 	for _, o := range failed {
+		if unreliable[expandKey(strings.SplitN(o.Func, "/", 2)[0])] || unreliable[o.FuncKey] {
+			continue
+		}
 		if o.Result == "disagree" || o.Result == "error" {
 			undecided = append(undecided, "solver "+o.Result+" on "+o.Name)
 			continue
